@@ -10,6 +10,13 @@ Correspondence (vs Model/HpMut.lean, token `hpmut`):
     agent's every configured hyperparameter and every optimizer's `param_groups[*]['lr']` is compared
     with the model's `dump`.  The registry descriptor (hyperparameter names, optimizers, their lr
     attribute names and group counts) is read from the live object and handed to the model.
+  * op `evo` inside suite `population` (and the dedicated `gen_evo_case` histories): ONE EVOLUTION STEP as the training
+    loops perform it — `TournamentSelection.select` (elitism on/off) FOLLOWED BY `Mutations.mutation(new population)`
+    with each of the five mutation kinds (RL-hp / none / parameters / activation / architecture) and mutate_elite
+    on/off.  The model sees `select` + one `mut` per member that was given a hyper-parameter mutation; the oracle
+    judges "exactly the sampled hyper-parameter of exactly that agent changes" over the returned ELITE, every member
+    of the NEW population and every member of the OLD population together (hyper-parameters and every optimizer
+    group's lr), naming the twin when two of them are one object.
 Oracle (independent of the model; Fractions + a static optimizer→lr-attribute table): exactly one
 hyperparameter of exactly the mutated agent moved, to its OWN previous value × shrink|grow, clipped,
 cast; in range; right Python type; every optimizer group on that lr attribute carries the new value;
@@ -480,8 +487,13 @@ def gen_case(rng: random.Random, tier: str, algo: str | None = None, drift: bool
             # a continuation through the disk: save_checkpoint -> load_checkpoint into an un-mutated twin
             # ("ckpt") or -> Algo.load ("load"); the restored agent takes the place of the saved one
             ops.append([rng.choice(["ckpt", "ckpt", "load"]), rng.randrange(size)])
-        else:
+        elif x < 0.94 or drift:
             ops.append(["select", rng.random() < 0.6, [rng.randint(0, 9) for _ in range(size)]])
+        else:
+            # the evolution step of the training loops: select() followed by Mutations.mutation of the new population
+            kind = "rl_hp" if rng.random() < 0.55 and nmut < cap else rng.choice(EVO_KINDS[1:])
+            ops.append(["evo", rng.random() < 0.6, [rng.randint(0, 9) for _ in range(size)], rng.random() < 0.6, kind])
+            nmut += kind == "rl_hp"
     if not any(o[0] in ("mut", "mutall") for o in ops):
         ops.insert(0, ["mut", 0])
     # "the new value is what the agent SUBSEQUENTLY uses": in half of the histories one mutation is followed
@@ -496,6 +508,28 @@ def gen_case(rng: random.Random, tier: str, algo: str | None = None, drift: bool
             ops.insert(at + 2, ["learn", who])
     return {"algo": algo, "pop": pop, "via": "population" if rng.random() < 0.25 else "create_population",
             "hps": hps, "ops": ops, "seed": rng.randrange(1 << 30)}
+
+
+EVO_KINDS = ["rl_hp", "none", "param", "act", "arch"]
+
+
+def gen_evo_case(rng: random.Random, tier: str, algo: str) -> dict:
+    """a history made of evolution steps (select -> Mutations.mutation): the first one with elitism and
+    mutate_elite and a hyper-parameter mutation of every member, then one or two drawn from the full grid
+    elitism x mutate_elite x five mutation kinds, learning steps in between"""
+    c = gen_case(rng, tier, algo=algo)
+    size = c["pop"] = rng.choice([2, 3, 3, 4])
+    fits = lambda: [rng.randint(0, 9) for _ in range(size)]
+    ops = [["learn", -1]] if rng.random() < 0.6 else []
+    if rng.random() < 0.4:
+        ops.append(["mut", rng.randrange(size)])
+    ops.append(["evo", True, fits(), True, "rl_hp"])
+    for _ in range(rng.randint(1, 2)):
+        if rng.random() < 0.5:
+            ops.append(["learn", rng.choice([-1, rng.randrange(size)])])
+        ops.append(["evo", rng.random() < 0.5, fits(), rng.random() < 0.5, rng.choice(EVO_KINDS)])
+    c["ops"] = ops
+    return c
 
 
 def start_value(hp: dict, native: bool = False):
@@ -907,6 +941,89 @@ def case_steps(case: dict, mut=None):
             model.append("hpmut select " + " ".join(map(str, parents)))
             impl.append("ok")
             tags.append("op-select")
+        elif op[0] == "evo":
+            # one evolution step as every training loop performs it: TournamentSelection.select FOLLOWED BY
+            # Mutations.mutation(new population).  "No other agent's value moves" is judged over everything the step
+            # hands back or leaves behind: the elite select() returned, the new population and the old population.
+            elitism, fits, mutate_elite, kind = bool(op[1]), op[2], bool(op[3]), op[4]
+            for i, a in enumerate(pop):
+                a.fitness = [float(fits[i % len(fits)])]
+                a.c06_tag = i
+            old = list(pop)
+            ts = TournamentSelection(tournament_size=2, elitism=elitism, population_size=len(old), eval_loop=1)
+            elite, newpop = ts.select(old)
+            parents = [getattr(b, "c06_tag", None) for b in newpop]
+            if any(p is None for p in parents) or len(newpop) != len(old):
+                raise InfraError("cannot identify the parents of the selected population (tag attribute not copied)")
+            for b, p in zip(newpop, parents):
+                for n in names:
+                    if not same_value(getattr(b, n), getattr(old[p], n)):
+                        problems.append(f"{where}: child of agent {p} has {n}={getattr(b, n)!r}, parent {getattr(old[p], n)!r}")
+            model.append("hpmut select " + " ".join(map(str, parents)))
+            impl.append("ok")
+            watched = [("the elite select() returned", elite)] + [(f"agent {i} of the old population", a)
+                                                                  for i, a in enumerate(old)]
+            labelled = watched + [(f"agent {j} of the new population", b) for j, b in enumerate(newpop)]
+            snap_w = snapshot([o for _, o in watched], names, table)
+            snap_n = snapshot(newpop, names, table)
+            pr = {"none": (1, 0, 0, 0, 0), "arch": (0, 1, 0, 0, 0), "param": (0, 0, 1, 0, 0), "act": (0, 0, 0, 1, 0),
+                  "rl_hp": (0, 0, 0, 0, 1)}[kind]
+            m2 = Mutations(pr[0], pr[1], 0.5, pr[2], pr[3], pr[4], mutate_elite=mutate_elite, rand_seed=s % (2 ** 31))
+            hit = []
+            if kind == "rl_hp":
+                with Draws() as d:
+                    out = list(m2.mutation(newpop))
+                hit = [j for j in range(len(out)) if mutate_elite or j > 0]
+                pairs = d.pairs(len(hps))
+                if len(pairs) != len(hit) or len(out) != len(newpop):
+                    raise InfraError(f"Mutations.mutation(mutate_elite={mutate_elite}) made {len(pairs)} draw pairs for "
+                                     f"{len(hit)} agents to mutate")
+                for j, (perm, coin) in zip(hit, pairs):
+                    a = out[j]
+                    trace.append({"op": op, "agent": j, "perm": perm, "coin": coin, "mut": a.mut})
+                    model.append(f"hpmut mut {j} {frac(coin)} " + " ".join(map(str, perm)))
+                    k = names.index(a.mut) if a.mut in names else -1
+                    impl.append(f"{k} {tag_of(getattr(a, a.mut, None))} {fr(getattr(a, a.mut))}" if k >= 0 else str(a.mut))
+                    check_mutated(j, a, snap_n[j], [(i, x) for i, x in enumerate(snap_n) if i != j], hps, table, where,
+                                  problems, tags, sum(1 for b in out if b.registry.hp_config is a.registry.hp_config) > 1)
+                stateless_lr.update(id(out[j]) for j in hit if out[j].mut in lr_names)
+            else:
+                try:
+                    out = list(m2.mutation(newpop))
+                except InfraError:
+                    raise
+                except Exception as e:                  # coherence after such mutations is C02's subject
+                    out = list(newpop)
+                    tags.append(f"op-evo-{kind}-raised-{type(e).__name__}")
+            if len(out) == len(newpop):
+                now_n = snapshot(out, names, table)
+                for j in range(len(out)):
+                    if j in hit:
+                        continue
+                    moved = [n for n in names if not same_value(now_n[j]["hp"][n], snap_n[j]["hp"][n])]
+                    if moved or now_n[j]["opt"] != snap_n[j]["opt"]:
+                        problems.append(f"{where}: agent {j} of the new population was not given a hyper-parameter "
+                                        f"mutation ({kind}, mutate_elite={mutate_elite}) but {moved or 'an optimizer lr'} moved")
+            # nobody else moved: the elite and every member of the old population
+            now_w = snapshot([o for _, o in watched], names, table)
+            for (label, o), b, n_ in zip(watched, snap_w, now_w):
+                moved = [n for n in names if not same_value(n_["hp"][n], b["hp"][n])]
+                lrs = [o_ for o_ in b["opt"] if n_["opt"].get(o_) != b["opt"][o_]]
+                if moved or lrs:
+                    twin = [l for l, x in labelled if x is o and l != label]
+                    what = [f"{n} {fr(b['hp'][n])} -> {fr(n_['hp'][n])}" for n in moved] + \
+                           [f"lr of {o_} {[frac(g) for g in b['opt'][o_]]} -> {[frac(g) for g in n_['opt'][o_]]}" for o_ in lrs]
+                    problems.append(f"{where}: {label} (index {o.index}) moved although only the new population was mutated "
+                                    f"(select with elitism={elitism}, then Mutations.mutation {kind}, mutate_elite="
+                                    f"{mutate_elite}): {'; '.join(what)}"
+                                    + (f" — it is the same object as {twin[0]}" if twin else "") + " [another agent moved]")
+            trace.append({"op": op[:2] + op[3:], "parents": parents, "elite_parent": getattr(elite, "c06_tag", None),
+                          "mutated": hit})
+            pop = out
+            tags += ["op-evo", f"op-evo-{kind}", "op-evo-mutate-elite" if mutate_elite else "op-evo-keep-elite",
+                     "op-evo-elitism" if elitism else "op-evo-no-elitism"]
+            if elitism and mutate_elite and kind == "rl_hp":
+                tags.append("op-evo-elite-slot-mutated")
         else:
             raise InfraError(f"unknown op {op}")
         check_invariant(pop, table, where, problems)
@@ -1330,7 +1447,9 @@ def run(chk: Check) -> None:
                 "hyperparameters, then 4-16 ops (real learn() step of one/all agents — 60% of the histories start "
                 "with one, so optimizers hold state when mutated | mutate one agent | Mutations.mutation(pop) | "
                 "another mutation kind | clone | tournament selection | save_checkpoint -> load_checkpoint into an "
-                "un-mutated twin | save_checkpoint -> Algo.load), half of the histories with such a continuation "
+                "un-mutated twin | save_checkpoint -> Algo.load | evolution step = select then Mutations.mutation of "
+                "the new population, five mutation kinds x mutate_elite on/off x elitism on/off, judged over elite + "
+                "new + old population), half of the histories with such a continuation "
                 "immediately after a mutation; start values also held as int literals (float hps at 0/1), numpy "
                 "scalars, 0-dim tensors; plus long power-of-two drift runs; suite session: 2-3 populations of "
                 "different algorithms whose histories are interleaved and performed by ONE shared Mutations object; "
@@ -1411,13 +1530,16 @@ def run(chk: Check) -> None:
         cases.append(gen_case(rng, chk.tier))
     for _ in range(3 if quick else 25):
         cases.append(gen_case(rng, chk.tier, algo=rng.choice(["DQN", "TD3", "IPPO", "PPO", "DDPG"]), drift=True))
+    # evolution steps (select -> Mutations.mutation): quick = six drawn algorithms, thorough = all, four times
+    for a in (rng.sample(list(ALGOS), 6) if quick else list(ALGOS) * 4):
+        cases.append(gen_evo_case(rng, chk.tier, a))
     for a in ALGOS:                                        # start values held in another number type
         for _ in range(1 if quick else 6):
             cases.append(gen_case(rng, chk.tier, algo=a, types=True))
     ndiff = 0
     interesting = {"clipped", "int-hp", "lr-of-several-optimizers", "shared-config-mutation",
                    "lr-mutation-of-trained-optimizer", "restored-right-after-lr-mutation", "held-as-int",
-                   "held-as-float64", "held-as-Tensor"}
+                   "held-as-float64", "held-as-Tensor", "op-evo-elite-slot-mutated"}
     for idx, case in enumerate(cases):
         diff, problems, tags, impl, model_out, trace = one_case(chk, case)
         chk.case([case["algo"], case["pop"], case["hps"], case["ops"]],
@@ -1496,10 +1618,51 @@ SELFTEST_CKPT = {"algo": "TD3", "pop": 1, "via": "create_population",
                  "ops": [["mut", 0], ["ckpt", 0]], "seed": 23}
 
 
+SELFTEST_EVO = {"algo": "TD3", "pop": 3, "via": "create_population",
+                "hps": [{"name": "lr_critic", "lo": "1/65536", "hi": "1/16", "shrink": "1/2", "grow": "2", "dt": "f",
+                         "v": "1/512"}],
+                "ops": [["learn", -1], ["evo", True, [1, 5, 3], True, "rl_hp"]], "seed": 29}
+
+
 def selftest(chk: Check) -> None:
     """seeded faults in the implementation must be noticed by oracle and correspondence"""
     from agilerl.algorithms.core import registry as reg
     from agilerl.hpo import mutation as mm
+    from agilerl.hpo import tournament as tt
+
+    # (0) evolution step: slot 0 of the new population is the elite object itself, so the hyper-parameter mutation of
+    #     slot 0 moves the elite's value and optimizer lr (the model does not hold the elite: oracle only); the same
+    #     fault must stay invisible when the elite slot is not mutated
+    orig_select = tt.TournamentSelection.select
+
+    def select_elite_in_slot0(self, population):
+        elite, new = orig_select(self, population)
+        if self.elitism and new:
+            new[0] = elite
+        return elite, new
+
+    def select_child_is_parent(self, population):
+        elite, new = orig_select(self, population)
+        if new:
+            new[-1] = population[new[-1].c06_tag]                        # an old agent handed on instead of a copy
+        return elite, new
+    for name, fault in (("the elite object itself sits in slot 0 of the new population", select_elite_in_slot0),
+                        ("an old agent itself is handed on as a member of the new population", select_child_is_parent)):
+        tt.TournamentSelection.select = fault
+        try:
+            _, problems, *_ = one_case(chk, SELFTEST_EVO)
+            _, quiet, *_ = one_case(chk, {**SELFTEST_EVO, "ops": [["evo", True, [1, 5, 3], False, "none"]]})
+        finally:
+            tt.TournamentSelection.select = orig_select
+        if not any("another agent moved" in p for p in problems):
+            raise InfraError(f"C06 self-test: seeded fault '{name}' was not noticed by the evolution-step oracle")
+        if quiet:
+            raise InfraError(f"C06 self-test: '{name}' flagged although no hyper-parameter was mutated: {quiet[0]}")
+        chk.notes.append(f"self-test: {name}: noticed after select -> rl-hp mutation ({problems[0][:110]}…), silent when "
+                         f"nothing is mutated")
+    d0, p0, *_ = one_case(chk, SELFTEST_EVO)
+    if d0 is not None or p0:
+        raise InfraError("C06 self-test: the restored select() is flagged on the evolution-step case")
 
     def must_fail(name: str, case: dict) -> None:
         diff, problems, *_ = one_case(chk, case)
